@@ -122,6 +122,22 @@ type knownFinding struct {
 	re          *regexp.Regexp
 }
 
+// repoDir is the bio-rd working tree the checks are built from: /repo. VERIF_REPO points the
+// runner at a scratch copy instead; registered commands never set it.
+func repoDir() string {
+	if d := os.Getenv("VERIF_REPO"); d != "" {
+		return d
+	}
+	return "/repo"
+}
+
+func replayDir() string {
+	if d := os.Getenv("VERIF_REPLAY_DIR"); d != "" {
+		return d
+	}
+	return filepath.Join(verifDir, "replays")
+}
+
 func infra(format string, args ...any) {
 	fmt.Fprintf(os.Stderr, "vcheck: infrastructure problem: "+format+"\n", args...)
 	cleanup()
@@ -212,13 +228,14 @@ func build(engine string, race bool) string {
 	os.MkdirAll(buildRoot, 0o755)
 	gen := filepath.Join(buildRoot, fmt.Sprintf("gen-%d", os.Getpid()))
 	os.RemoveAll(gen)
-	if out, err := run(verifDir, 5*time.Minute, filepath.Join(verifDir, "bin", "simgen"), "-repo", "/repo", "-out", gen); err != nil {
+	if out, err := run(verifDir, 5*time.Minute, filepath.Join(verifDir, "bin", "simgen"), "-repo", repoDir(), "-out", gen); err != nil {
 		os.RemoveAll(gen)
 		infra("simgen failed (cannot instrument the current tree): %v\n%s", err, out)
 	}
 	h := sha256.New()
 	hashTree(h, filepath.Join(gen, "src"))
-	hashRepo(h, "/repo")
+	hashRepo(h, repoDir())
+	fmt.Fprintf(h, "repo=%s\n", repoDir())
 	hashTree(h, filepath.Join(verifDir, "harness"))
 	hashTree(h, filepath.Join(verifDir, "simrt"))
 	hashTree(h, filepath.Join(verifDir, "overlay"))
@@ -257,6 +274,21 @@ func build(engine string, race bool) string {
 	}
 	tmp := bin + fmt.Sprintf(".tmp%d", os.Getpid())
 	args := []string{"test", "-c", "-tags", "verif", "-overlay=" + filepath.Join(dir, "overlay.json"), "-o", tmp}
+	if repoDir() != "/repo" {
+		// internal use (validation of seeded changes on a scratch copy, in parallel with other work):
+		// the same harness module with bio-rd replaced by the copy
+		gm, err := os.ReadFile(filepath.Join(hdir, "go.mod"))
+		if err != nil {
+			infra("cannot read harness/go.mod: %v", err)
+		}
+		gm = bytes.ReplaceAll(gm, []byte("=> /repo"), []byte("=> "+repoDir()))
+		gm = bytes.ReplaceAll(gm, []byte("=> ../simrt"), []byte("=> "+filepath.Join(verifDir, "simrt")))
+		os.WriteFile(filepath.Join(dir, "go.mod"), gm, 0o644)
+		if b, err := os.ReadFile(filepath.Join(repoDir(), "go.sum")); err == nil {
+			os.WriteFile(filepath.Join(dir, "go.sum"), b, 0o644)
+		}
+		args = append(args, "-modfile="+filepath.Join(dir, "go.mod"))
+	}
 	if race {
 		// product code is instrumented; the simulator runtime and the harness are not (and are not
 		// inlined into instrumented callers), see simrt/lock_race.go
@@ -710,7 +742,7 @@ func main() {
 		assertions = append(assertions, a)
 	}
 	sort.Strings(assertions)
-	os.MkdirAll(filepath.Join(verifDir, "replays"), 0o755)
+	os.MkdirAll(replayDir(), 0o755)
 	for _, a := range assertions {
 		vs := byAssertion[a]
 		// split into known and unknown by the matcher
@@ -903,7 +935,7 @@ func fileSafe(a string) string {
 
 // reportViolation confirms, minimises and writes the replay file of a violation.
 func reportViolation(bin, work, prop, assertion string, l outLine, v violation, tier string) string {
-	path := filepath.Join(verifDir, "replays", fmt.Sprintf("%s-%s-%d.json", prop, fileSafe(assertion), l.Seed))
+	path := filepath.Join(replayDir(), fmt.Sprintf("%s-%s-%d.json", prop, fileSafe(assertion), l.Seed))
 	rf := replayFile{Property: prop, Assertion: assertion, Seed: l.Seed, Detail: v.Detail, Plan: l.Plan}
 	if len(l.Plan) == 0 {
 		// crash without a plan line: regenerate the plan by index is not possible here; store what we know
